@@ -35,6 +35,9 @@ type c17Model struct {
 	prefixOK  map[string]bool // lines that may or may not appear when the run ends by a fatal interrupt
 	endless   bool
 	failMsgByCore bool // the failing worker's message names its id (= core number - 2)
+	genCalls  [][3]int // shape 10: (worker id, function, argument)
+	genSrc    string
+	genSeed   uint64
 	handshake bool // cores wait for each other's writes to globals: must complete within a step bound under fair scheduling
 }
 
@@ -220,6 +223,22 @@ fn sleeper(id: int) {
 			m.finals = append(m.finals, f)
 		}
 		tail()
+	case 10:
+		// generated pure functions as thread bodies: each worker prints f(arg); the expected value is what
+		// the same function returns when it runs alone (computed on a fresh single-core VM, cached)
+		gs := uint64(1 + spec.P("g", 1))
+		src := genFunctions(gs, 3)
+		b.WriteString(src)
+		b.WriteString("fn gwk(id: int, which: int, arg: int) {\n    let r = 0;\n    if which == 0 { r = e0(arg); } else { if which == 1 { r = e1(arg); } else { r = e2(arg); } }\n    println(\"gwk\", id, r);\n}\n")
+		b.WriteString("fn main() {\n")
+		for i := 0; i < n; i++ {
+			which, arg := i%3, (i*7+iters)%13
+			fmt.Fprintf(&b, "    spawn gwk(%d, %d, %d);\n", i, which, arg)
+			m.genCalls = append(m.genCalls, [3]int{i, which, arg})
+		}
+		m.genSrc = src
+		m.genSeed = gs
+		tail()
 	case 9:
 		// every core counts in a global of its own: nobody else writes it, so the final value is exact
 		for i := 0; i < n; i++ {
@@ -316,6 +335,20 @@ func runC17(t *testing.T, spec RunSpec) *Verdict {
 	if err != nil {
 		v.fail(P, "infra", "", "", "workload does not compile: "+err.Error()+"\n"+m.prog.Modules["main"])
 		return v
+	}
+	for _, c := range m.genCalls {
+		val, gerr := genReference(t, m.genSeed, m.genSrc, c[1], c[2])
+		if gerr != "" {
+			if strings.Contains(gerr, "does not compile") {
+				v.Probes = map[string]int{"generated-program-rejected": 1}
+				return v
+			}
+			v.fail(P, "infra", "", "", "reference call of generated function failed: "+gerr)
+			return v
+		}
+		l := fmt.Sprintf("gwk %d %d", c[0], val)
+		m.lines[l]++
+		m.finals = append(m.finals, l)
 	}
 	env := newVMEnv(prog, generousLimits)
 	anyCore := false
@@ -479,12 +512,15 @@ func planC17(t *testing.T, tier string, seed uint64) ([]RunSpec, error) {
 		sweepCap = 0
 	}
 	idx := 0
-	for shape := 0; shape <= 9; shape++ {
+	for shape := 0; shape <= 10; shape++ {
 		for _, n := range ns {
 			for late := 0; late < 3; late++ {
 				base := RunSpec{Property: "C17", Workload: fmt.Sprintf("c17/shape%d", shape), Params: map[string]int{"shape": shape, "n": n, "iters": 1 + (n+late)%3, "main_late": late}}
 				if shape == 7 && n > 4 {
 					continue
+				}
+				if shape == 10 {
+					base.Params["g"] = int(simrt.Mix(seed, uint64(n), uint64(late)) % 100000)
 				}
 				if shape == 3 {
 					base.Params["at"] = late
@@ -542,4 +578,44 @@ func coreList(m map[uint]bool) []int {
 	}
 	sort.Ints(out)
 	return out
+}
+
+// genReference: the value e<which>(arg) of a generated program returns when it is the only thing
+// running on a fresh VM (outside any simulation; cached).
+var genRefCache = map[string]string{}
+var genRefVal = map[string]int64{}
+
+func genReference(t *testing.T, gseed uint64, src string, which, arg int) (int64, string) {
+	key := fmt.Sprintf("%d/%d/%d", gseed, which, arg)
+	if e, ok := genRefCache[key]; ok {
+		return genRefVal[key], e
+	}
+	full := src + fmt.Sprintf("fn main() { println(e%d(%d)); }\n", which, arg)
+	prog, err := MustCompile(Single(full))
+	if err != nil {
+		genRefCache[key] = "does not compile: " + err.Error()
+		return 0, genRefCache[key]
+	}
+	env := newVMEnv(prog, generousLimits)
+	var outc outcome
+	func() {
+		defer func() {
+			if r := recover(); r != nil {
+				outc = outcome{Kind: "panic", Msg: fmt.Sprint(r)}
+			}
+		}()
+		env.boot()
+		env.vm.SpawnAsync(runtime.MainFn(), nil, nil, nil)
+		num, i := env.vm.Wait()
+		outc = classify(num, i)
+	}()
+	lines := env.out.Lines()
+	if outc.Kind != "completed" || len(lines) != 1 {
+		genRefCache[key] = "reference run: " + outc.Kind + " " + firstLine(outc.Msg)
+		return 0, genRefCache[key]
+	}
+	var val int64
+	fmt.Sscanf(lines[0], "%d", &val)
+	genRefCache[key], genRefVal[key] = "", val
+	return val, ""
 }
